@@ -63,7 +63,20 @@ def run_impl(c):
     req, gens_a = build_case(c)
     cfg = BaseOptimizationConfig(population_size=len(gens_a[0]), max_cycles=c["maxCycles"], fitness_error=c["fe"],
                                  early_stopping=None if c["es"] is None else EarlyStopping(patience=c["es"][0], min_delta=c["es"][1]))
-    opt = Scripted(cfg, gens_a)
+    if c.get("inplace"):
+        # the instance first runs under OTHER stop criteria; the caller then edits its configuration object in place
+        # (`opt.configuration.max_cycles = …`): the next run must follow the edited values
+        first = BaseOptimizationConfig(population_size=len(gens_a[0]), max_cycles=len(gens_a) - 1, fitness_error=None, early_stopping=None)
+        opt = Scripted(first, gens_a)
+        try:
+            quiet(opt.optimize, script_task(c["dir"]))
+        except Exception:  # noqa
+            pass
+        opt.configuration.max_cycles = cfg.max_cycles
+        opt.configuration.fitness_error = cfg.fitness_error
+        opt.configuration.early_stopping = cfg.early_stopping
+    else:
+        opt = Scripted(cfg, gens_a)
     task = script_task(c["dir"])
     try:
         res = quiet(opt.optimize, task)
@@ -123,6 +136,8 @@ def gen_cases(ctx):
                     f0 = rng.choice(FITS)
                     gens = [[(rng.choice([-2.0, 0.0, 1.5, 3.0]), f0)]] + [[(rng.choice([-2.0, 0.0, 1.5, 3.0]), f)] for f in h]
                     cases.append({"gens": gens, "dir": d, "maxCycles": mc, "fe": fe, "es": es, "kind": "single-agent history"})
+                    if rng.random() < 0.15:
+                        cases.append({"gens": gens, "dir": d, "maxCycles": mc, "fe": fe, "es": es, "kind": "in-place reconfiguration of a used instance", "inplace": True})
     # multi-agent generations: ties in cost, pairs of dyadic fitness values, both directions
     for _ in range(3000 if not ctx.thorough else 30000):
         ps = rng.randrange(2, 5)
@@ -167,7 +182,7 @@ def run_suite(ctx, prop):
     ctx.suites_run.append(SUITE)
     ctx.rule("scripted optimizer driving the real optimize(): fitness histories over a dyadic alphabet (rates 0.5/0.25/0.125/0), length ≤ 4 quick / 6 thorough, "
              "× max_cycles 1..L × fitness_error in {None, a rate of the history, 1 ulp below, 1 ulp above} × early stopping {None, patience 1..3 × min_delta at/around a difference} "
-             "× direction; plus multi-agent generations with cost ties; non-trivial = the run executes ≥ 2 cycles or stops by a criterion other than the budget; distinct by full case")
+             "× direction; a seventh of them on an instance that already ran under other criteria and whose configuration object was then edited in place; plus multi-agent generations with cost ties; non-trivial = the run executes ≥ 2 cycles or stops by a criterion other than the budget; distinct by full case")
     cases = gen_cases(ctx)
     results = pmap(run_impl, cases)
     answers = run_driver_parallel([r[0] for r in results])
